@@ -1,10 +1,11 @@
 (* C05 — concurrent producers and consumers: exactly-once, ordered delivery.
    Pinned statements only; model in model/Conc.v, acceptor in spec/ConcSpec.v, proofs in
    proofs/Conc*.v.  [run_schedule v fx progs sched]: the thread programs [progs] interleaved at
-   segment granularity as the thread-id list [sched] says; [fx = false] is the code as it is,
-   [fx = true] the code with PROPOSED_FIX.diff applied. *)
+   segment granularity as the thread-id list [sched] says; [fx = false] is the code BEFORE fix 4c905dc (kept:
+   it documents the defects), [fx = true] the code as it is now. *)
 From W Require Import gen.Consts model.Base model.Engine model.EngineCfg model.Conc spec.ConcSpec
-  proofs.EngineWF proofs.ConcInv proofs.ConcStep proofs.ConcBridge proofs.ConcMain.
+  proofs.EngineWF proofs.ConcInv proofs.ConcStep proofs.ConcBridge proofs.ConcMain
+  proofs.ConcInvF proofs.ConcStepF proofs.ConcBridgeF proofs.ConcMainF.
 From Coq Require Import Lia.
 
 (* the property at full strength: every schedule of every set of thread programs (distinct
@@ -116,17 +117,17 @@ Theorem c05_fixed_witnesses_accepted :
   snd (fst (verdict true k3b_progs k3b_sched)) = true.
 Proof. vm_compute. auto. Qed.
 
-(* ------------------------------------------------------------------ the positive result *)
+(* ------------------------------------------------------------------ the positive result for the pre-fix code *)
 (* EVERY schedule (any number of threads, any interleaving at segment granularity, block
    rotations included) of programs made of single appends and consuming read_next calls, with
-   at most one consuming thread per topic, code as it is: if no block of a topic is sealed while
+   at most one consuming thread per topic, code before the fix (fx = false): if no block of a topic is sealed while
    that topic's consumer is between its tail snapshot and its commit (the mechanism monitor's
    seal-in-read flag stays clear) and every call has returned, the results are accepted:
    every delivered entry is a whole acknowledged entry, none is delivered twice, and each
    producer's entries are delivered in the order it appended them.
    "partial": batch appends, batch reads, peeks and several consumers per topic are outside this
    theorem (they are inside the model, the refutations and the differential check); the full
-   statement is C05_full above, false for the code as it is (refutations above). *)
+   statement is C05_full above, false for fx = false (refutations above). *)
 Theorem c05_single_consumer_outside_known_partial :
   forall (c : Cfg) (m : mode) (be : backend) (progs : list (list call)) (sched : list nat),
     cfg_ok c -> simple_progs progs -> single_consumer progs -> NoDup (offered_pids progs) ->
@@ -191,6 +192,75 @@ Theorem c05_real : forall m be progs sched,
   c05_run_ok progs (cresults (ro_cs ro)) false = true.
 Proof. intros m be progs sched. exact (single_consumer_outside_known real_cfg m be progs sched real_cfg_ok'). Qed.
 
+(* ------------------------------------------------------------------ the code as it is NOW (with fix 4c905dc: fx = true) *)
+(* EVERY schedule — no hypothesis on the interleaving, the monitor flags may be raised — of programs
+   made of single appends and consuming read_next calls, ANY number of producer and consumer threads
+   on any number of topics (several consumers per topic included), any Cfg with cfg_ok, both modes:
+   once every call has returned, the results are accepted: every delivered entry is a whole
+   acknowledged entry, no entry is delivered twice over all consumers, and in what one consumer
+   thread received the entries of one producer thread appear in the order that producer appended them.
+   Proof: proofs/Conc{InvF,StepF,BridgeF,MainF}.v — a writer snapshot held by a read_next is either
+   still a prefix of the writer block, or empty, or its block id is at most the last id in the chain;
+   the last two are what the fix's checks at the commit detect (retry), the first together with
+   "tail position unchanged" (the third check) makes the commit the delivery of the first unread
+   entry; deliveries are recorded in a ghost log (thread, out) per topic in commit order.
+   "partial": batch appends, batch reads and peeks are outside this theorem (inside the model, the
+   witness theorems and the differential check); C05_full true stays a Definition. *)
+Theorem c05_fixed_every_schedule_partial :
+  forall (c : Cfg) (m : mode) (be : backend) (progs : list (list call)) (sched : list nat),
+    cfg_ok c -> simple_progs progs -> NoDup (offered_pids progs) ->
+    let ro := run_schedule {| v_cfg := c; v_mode := m; v_backend := be |} true progs sched in
+    threads_done (ro_cs ro) = true ->
+    c05_run_ok progs (cresults (ro_cs ro)) false = true.
+Proof. intros c m be progs sched. exact (fixed_every_schedule c m be progs sched). Qed.
+
+(* the one-consumer-per-topic instance asked for first (the hypothesis is not needed) *)
+Corollary c05_single_consumer_fixed_partial :
+  forall (c : Cfg) (m : mode) (be : backend) (progs : list (list call)) (sched : list nat),
+    cfg_ok c -> simple_progs progs -> single_consumer progs -> NoDup (offered_pids progs) ->
+    let ro := run_schedule {| v_cfg := c; v_mode := m; v_backend := be |} true progs sched in
+    threads_done (ro_cs ro) = true ->
+    c05_run_ok progs (cresults (ro_cs ro)) false = true.
+Proof. intros c m be progs sched Hc Hs _ Hnd. exact (fixed_every_schedule c m be progs sched Hc Hs Hnd). Qed.
+
+Theorem c05_fixed_invariant_every_schedule :
+  forall (c : Cfg) (m : mode) (be : backend) (progs : list (list call)) (sched : list nat),
+    cfg_ok c -> simple_progs progs -> NoDup (offered_pids progs) ->
+    exists L, INVF c progs (ro_cs (run_schedule {| v_cfg := c; v_mode := m; v_backend := be |} true progs sched)) L.
+Proof. intros c m be progs sched. exact (invF_every_schedule c m be progs sched). Qed.
+
+Theorem c05_fixed_real : forall m be progs sched,
+  simple_progs progs -> NoDup (offered_pids progs) ->
+  let ro := run_schedule {| v_cfg := real_cfg; v_mode := m; v_backend := be |} true progs sched in
+  threads_done (ro_cs ro) = true ->
+  c05_run_ok progs (cresults (ro_cs ro)) false = true.
+Proof. intros m be progs sched. exact (fixed_every_schedule real_cfg m be progs sched real_cfg_ok'). Qed.
+
+(* non-vacuity: the pre-fix witness schedules are instances (simple programs, distinct ids, every
+   call returned); the monitor flags ARE raised on them, and the fixed code's results are accepted
+   (drain counted): two consumers in the window / a rotation inside one consumer's window *)
+Example c05_fixed_witness :
+  simple_progs k1_progs /\ NoDup (offered_pids k1_progs) /\
+  verdict true k1_progs k1_sched = (true, true, flags true false false) /\
+  simple_progs k2_progs /\ NoDup (offered_pids k2_progs) /\
+  verdict true k2_progs k2b_sched = (true, true, flags false true false) /\
+  cresults (ro_cs (run_schedule v0 true k2_progs k2b_sched)) =
+    [[ROk; ROk; ROk; ROk]; [o 0 1000; o 1 1000; o 2 1000]; [o 3 1000; RNone; RNone]].
+Proof.
+  split; [repeat constructor|]. split; [repeat constructor; cbn; intuition discriminate|]. split; [vm_compute; reflexivity|].
+  split; [repeat constructor|]. split; [repeat constructor; cbn; intuition discriminate|]. vm_compute. auto.
+Qed.
+
+Check c05_fixed_every_schedule_partial :
+  forall (c : Cfg) (m : mode) (be : backend) (progs : list (list call)) (sched : list nat),
+    cfg_ok c -> simple_progs progs -> NoDup (offered_pids progs) ->
+    let ro := run_schedule {| v_cfg := c; v_mode := m; v_backend := be |} true progs sched in
+    threads_done (ro_cs ro) = true ->
+    c05_run_ok progs (cresults (ro_cs ro)) false = true.
+Print Assumptions c05_fixed_every_schedule_partial.
+Print Assumptions c05_single_consumer_fixed_partial.
+Print Assumptions c05_fixed_invariant_every_schedule.
+Print Assumptions c05_fixed_real.
 Check c05_single_consumer_outside_known_partial :
   forall (c : Cfg) (m : mode) (be : backend) (progs : list (list call)) (sched : list nat),
     cfg_ok c -> simple_progs progs -> single_consumer progs -> NoDup (offered_pids progs) ->
